@@ -1045,6 +1045,15 @@ class _Builder:
                 c = const_of(value, self.env) if value is not None else UNKNOWN
                 if c is not UNKNOWN:
                     return self.ev("assign", cell, st, const=c)
+                # self.k = self.k + c  /  c + self.k  is the spelled-out bump
+                if isinstance(value, ast.BinOp) and isinstance(value.op, ast.Add):
+                    for a, b in ((value.left, value.right), (value.right, value.left)):
+                        if isinstance(a, ast.Attribute) and self.is_self(a.value) \
+                                and a.attr == attr:
+                            k = const_of(b, self.env)
+                            if isinstance(k, (int, float)) and \
+                                    not isinstance(k, bool) and k > 0:
+                                return self.ev("bump", cell, st, amount=k)
                 info = {}
                 if value is not None:
                     info["value"] = value
